@@ -26,6 +26,71 @@ def _snap(routines) -> list[list[dict]]:
     return [[_rec(o) for o in r] for r in routines]
 
 
+def _snap_binary(routines) -> list[list[dict]]:
+    """ops as a binary reader delivers them (jump target at its table index)"""
+    out = []
+    for r in routines:
+        rr = []
+        for op in r:
+            o = canon.op_rec(op, jump_last=False)
+            rr.append({"k": "op", "lbl": -1, "off": o["off"], "op": o["op"], "ps": o["ps"], "tgt": o["tgt"]})
+        out.append(rr)
+    return out
+
+
+def staged_resolve(case: dict) -> dict:
+    """{D0, D1}: input and output of OpsLabelJumpToResolver inside ExplorerScriptSsbDecompiler.convert() for the routine set
+    `case` = {routines, infos} (records); recorded by substituting the name in ssb_decompiler's namespace for one call."""
+    from explorerscript.ssb_converting import ssb_decompiler as m
+    from explorerscript.ssb_converting.ssb_data_types import DungeonModeConstants
+    from vf import decomp
+    orig = m.OpsLabelJumpToResolver
+    sink: dict = {}
+
+    class Resolver(orig):
+        def __init__(self, routines):
+            sink["D0"] = _snap_binary(routines)
+            super().__init__(routines)
+
+        def __iter__(self):
+            out = list(super().__iter__())
+            sink["D1"] = _snap(out)
+            return iter(out)
+    m.OpsLabelJumpToResolver = Resolver
+    rec = {"status": "ok", "err": "", "routines": case["routines"]}
+    try:
+        infos, coros = canon.build_infos(case["infos"])
+        m.ExplorerScriptSsbDecompiler(infos, canon.build_ops(case["routines"]), coros, common.PPL, DungeonModeConstants(*decomp.DMODE)).convert()
+    except Exception as ex:  # noqa
+        rec["status"], rec["err"] = type(ex).__name__, str(ex)[:200]
+    finally:
+        m.OpsLabelJumpToResolver = orig
+    rec.update(sink)
+    rec["complete"] = "D0" in sink and "D1" in sink
+    return rec
+
+
+def tlc_check_resolver(recs: list[dict], tag: str) -> tuple[dict, dict]:
+    import json
+    import os
+    out: dict = {}
+    tot = {"distinct": 0, "states": 0}
+    B = 3000
+    for k in range(0, len(recs), B):
+        path = os.path.join(common.scratch(), f"resolver-{tag}-{k}.json")
+        with open(path, "w") as fh:
+            json.dump([{"D0": r["D0"], "D1": r["D1"]} for r in recs[k:k + B]], fh)
+        res = common.run_tlc("CompilerPipeline", "CompilerPipeline_resolver.cfg", {"CASES_FILE": path})
+        os.unlink(path)
+        tot["distinct"] += res["distinct"]
+        tot["states"] += res["states"]
+        if res["inv_errors"] and not res["viols"]:
+            raise common.MachineryError("invariant violation without VIOL line:\n" + res["out"][-3000:])
+        for v in res["viols"]:
+            out.setdefault(k + int(v[0]) - 1, []).append(common.tla_unquote(v[1]))
+    return out, tot
+
+
 @contextlib.contextmanager
 def recording(sink: dict):
     from explorerscript.ssb_converting import ssb_compiler as m
